@@ -151,6 +151,8 @@ func (s C10) Events(env world.Env, mm mc.Model) []string {
 				if s.Full {
 					add("AddViewers:%s:%s:%s:ok:S+V/short", x, path, a) // two ids, one key: handler panics => failed tx
 					add("AddEditors:%s:%s:%s:ok:S+V", x, path, a)
+					add("AddEditors:%s:%s:%s:ok:S^", x, path, a) // grants an id that differs from S's editor id only in case
+					add("AddViewers:%s:%s:%s:ok:S^", x, path, a)
 					add("RemoveViewers:%s:%s:%s:ok:V+O", x, path, a)
 				}
 			}
@@ -359,7 +361,12 @@ func (s C10) Apply(env world.Env, mm mc.Model, ev string) mc.Step {
 			short := strings.HasSuffix(spec, "/short")
 			spec = strings.TrimSuffix(spec, "/short")
 			for _, who := range strings.Split(spec, "+") {
-				ids = append(ids, idOf(c10Track, who))
+				if strings.HasSuffix(who, "^") { // the id of that account spelled with capital hex digits: a different id
+					who = strings.TrimSuffix(who, "^")
+					ids = append(ids, strings.ToUpper(idOf(c10Track, who)))
+				} else {
+					ids = append(ids, idOf(c10Track, who))
+				}
 				keys = append(keys, "key-"+who)
 			}
 			if short {
